@@ -115,7 +115,16 @@ def one_motor(ctx, idx, tier):
         Ds += bnd + [rng.uniform(-b, b) for _ in range(3)] + [b * (1 + 1e-9), b * (1 - 1e-9), -b * (1 + 1e-6)]
     Ds = [d for d in Ds if abs(d) <= 1 and (d == 0 or abs(d) >= 1e-6)]
     n_w = 3 if tier == 'quick' else 6
-    for D in Ds:
+    for jD, D in enumerate(Ds):
+        if jD % 7 == 3 and derate is None:
+            # between two evaluations (also at the same duty cycle: Ds repeats 1 / 1.0 / -1 / -1.0) a constant is read back and
+            # converted in place once more
+            for attr in ('maximum_torque', 'no_load_speed', 'maximum_electric_current'):
+                obj = getattr(m, attr, None)
+                if obj is not None:
+                    us_ = [u_ for u_ in SI.units(type(obj).__name__) if u_ != obj.unit]
+                    obj.to(us_[jD % len(us_)], inplace=True)
+            ctx.count('constants_converted_in_place_between_evaluations')
         ws = [0.0, w0, -w0, D * w0] + [rng.uniform(-3, 3) * w0 for _ in range(n_w)]
         for w in ws:
             wq = {'v': w / fw, 'u': wu}
